@@ -285,6 +285,11 @@ def regen(ctx=None):
         raise
     changed = vlib.write_if_changed(GEN, res['lean'])
     if ctx is not None:
+        note = ('tools/cxx2lean.py (+ x2l_ast/x2l_tr/x2l_ex.py): clang 14 typed AST -> Lean translation of the small pure functions '
+                'behind the src_tie_* theorems, with the operator semantics of lean/Osmium/Model/CxxSem.lean '
+                '(cross-checked against the compiled code by tools/x2l_selftest.py)')
+        if note not in ctx.trusted:
+            ctx.trusted.append(note)
         ctx.extra['generated_src'] = {'functions': res['functions'], 'failures': res['failures'], 'cache': res['cache'],
                                       'changed': changed, 'clang_cmd': res['clang_cmd'], 'regen_s': round(time.time() - t0, 2)}
         for fl in res['failures']:
